@@ -14,8 +14,9 @@
 (* Spec     : two states per case: phase 0 = the case, phase 1 = the case  *)
 (*            with all verdicts computed (so the evaluation is spread over *)
 (*            TLC's workers; the invariants read the phase-1 record).      *)
-(* CompSpec : one state holding, for the defect / repair / every code      *)
-(*            variant, whether the theorems hold or fail on the small grid *)
+(* CompSpec : one state holding, for the code as it is, for the repaired   *)
+(*            defect (no root-write guard) and for every code variant,     *)
+(*            whether the theorems hold or fail on the small grid          *)
 (*            (anti-vacuity and "fails with the defect, holds with the     *)
 (*            repair"); invariant CompanionOK.                             *)
 (*                                                                         *)
@@ -29,7 +30,7 @@ EXTENDS PathRes, Json, IOUtils, SequencesExt, FiniteSetsExt
 
 CONSTANTS MaxDepth, AbsDepth,
           VRealpath, VContain, VArrowAbs, VListRaw, VFollow,     \* the variant (see PathRes)
-          VRootGuard                                             \* FALSE = the code as it is
+          VRootGuard                                             \* TRUE = the code as it is (since 409b145)
 
 VCfg == [realpath |-> VRealpath, contain |-> VContain, arrowAbs |-> VArrowAbs, listRaw |-> VListRaw, follow |-> VFollow,
          rootGuard |-> VRootGuard]
@@ -164,6 +165,7 @@ Out(x, V) ==
       confinedKnown |-> (\A b \in bad : IsRootWrite(fs, base, IF b[1] = "res" THEN res ELSE arr, b[2]))
                         /\ ListingConfined(fs, base, lst),
       rootWrite |-> IsRootWrite(fs, base, res, "write") \/ IsRootWrite(fs, base, arr, "write"),
+      resRoot |-> ~res.rej /\ res.full = RealBase(fs, base), arrRoot |-> ~arr.rej /\ arr.full = RealBase(fs, base),
       escRejected |-> EscapeRejectedStorage(fs, base, p, res) /\ EscapeRejectedArrow(fs, base, p, arr),
       notMisresolved |-> NotMisresolvedStorage(fs, base, p, res) /\ NotMisresolvedArrow(fs, base, p, arr),
       listRoundTrip |-> ListingRoundTrip(fs, base, lst),
@@ -181,7 +183,7 @@ Next == /\ c.ph = 0
 Spec == Init /\ [][Next]_c
 
 Confined         == c.ph = 1 => c.o.confined          \* C17, first sentence
-ConfinedKnown    == c.ph = 1 => c.o.confinedKnown     \* ... modulo the known finding C17-write-to-root
+ConfinedKnown    == c.ph = 1 => c.o.confinedKnown     \* ... not counting writes resolving to the root (only meaningful with VRootGuard = FALSE)
 EscapeRejected   == c.ph = 1 => c.o.escRejected       \* C17, second sentence
 NotMisresolved   == c.ph = 1 => c.o.notMisresolved
 ListingRoundTrip1 == c.ph = 1 => c.o.listRoundTrip
@@ -192,7 +194,7 @@ Exported == c.ph = 1 =>
   PrintT(ToJson([lay |-> c.o.lay, pre |-> c.o.pre, comps |-> c.o.comps, trail |-> c.o.trail, p |-> c.o.p,
                  resRej |-> c.o.resRej, resFull |-> c.o.resFull, resNode |-> c.o.resNode,
                  arrRej |-> c.o.arrRej, arrFull |-> c.o.arrFull, arrNode |-> c.o.arrNode,
-                 esc |-> c.o.esc, escArrow |-> c.o.escArrow,
+                 esc |-> c.o.esc, escArrow |-> c.o.escArrow, resRoot |-> c.o.resRoot, arrRoot |-> c.o.arrRoot,
                  listRej |-> c.o.listRej, listOut |-> SetToSeq(c.o.listOut)]))
 
 LayoutOut(l) == [lay |-> l, base |-> Base(l), root |-> LocStr(CanonRoot(FS(l), Base(l))),
@@ -203,28 +205,28 @@ ExportLayouts == JsonSerialize(IOEnv.VERIF_LAYOUTS, SetToSeq({LayoutOut(l) : l \
 SmallCases == {Case(l, p, cs, t) : l \in Layouts, p \in RelPres, cs \in UNION {[1..k -> Alphabet] : k \in 0..MaxDepth}, t \in BOOLEAN}
          \cup {Case(l, p, cs, t) : l \in Layouts, p \in AbsPres, cs \in UNION {[1..k -> Alphabet] : k \in 0..AbsDepth}, t \in BOOLEAN}
 
-Repaired == [Default EXCEPT !.rootGuard = TRUE]
+PreFix == [Default EXCEPT !.rootGuard = FALSE]      \* the code before commit 409b145
 Fails(V, fields) == \E x \in SmallCases : LET o == Out(x, V) IN \E f \in fields : ~o[f]
 Holds(V, fields) == \A x \in SmallCases : LET o == Out(x, V) IN \A f \in fields : o[f]
 
 CompanionVerdict ==
-  [ \* the code as it is: the strict first sentence FAILS, and only on writes resolving to the root itself
-    asIsStrictConfinedFails   |-> Fails(Default, {"confined"}),
-    asIsFailsOnlyOnRootWrite  |-> \A x \in SmallCases : LET o == Out(x, Default) IN o.confined \/ (o.rootWrite /\ o.confinedKnown),
-    asIsOtherTheoremsHold     |-> Holds(Default, {"confinedKnown", "escRejected", "notMisresolved", "listRoundTrip", "listServes"}),
-    \* the repair modelled: everything holds
-    repairedAllHold           |-> Holds(Repaired, {"confined", "escRejected", "notMisresolved", "listRoundTrip", "listServes"}),
+  [ \* the code as it is: everything holds (strict first sentence included)
+    asIsAllHold               |-> Holds(Default, {"confined", "escRejected", "notMisresolved", "listRoundTrip", "listServes"}),
+    \* the defect (no root-write guard): the strict first sentence FAILS, and only on writes resolving to the root itself
+    preFixStrictConfinedFails |-> Fails(PreFix, {"confined"}),
+    preFixFailsOnlyOnRootWrite |-> \A x \in SmallCases : LET o == Out(x, PreFix) IN o.confined \/ (o.rootWrite /\ o.confinedKnown),
     \* every code variant is caught by the theorems
-    abspathCaught             |-> Fails([Default EXCEPT !.realpath = FALSE], {"confinedKnown", "escRejected"}),
-    startswithCaught          |-> Fails([Default EXCEPT !.contain = "startswith"], {"confinedKnown", "escRejected"}),
-    noContainmentCaught       |-> Fails([Default EXCEPT !.contain = "none"], {"confinedKnown", "escRejected"}),
-    arrowAbsUnchangedCaught   |-> Fails([Default EXCEPT !.arrowAbs = TRUE], {"confinedKnown", "escRejected"}),
-    followlinksCaught         |-> Fails([Default EXCEPT !.follow = TRUE], {"confinedKnown", "listRoundTrip"}),
+    abspathCaught             |-> Fails([Default EXCEPT !.realpath = FALSE], {"confined", "escRejected"}),
+    startswithCaught          |-> Fails([Default EXCEPT !.contain = "startswith"], {"confined", "escRejected"}),
+    noContainmentCaught       |-> Fails([Default EXCEPT !.contain = "none"], {"confined", "escRejected"}),
+    arrowAbsUnchangedCaught   |-> Fails([Default EXCEPT !.arrowAbs = TRUE], {"confined", "escRejected"}),
+    followlinksCaught         |-> Fails([Default EXCEPT !.follow = TRUE], {"confined", "listRoundTrip"}),
     listRawBaseCaught         |-> Fails([Default EXCEPT !.listRaw = TRUE], {"listServes"}),
-    \* the grammar reaches escaping, rejected and accepted paths
+    \* the grammar reaches escaping, rejected and accepted paths and paths resolving to the root itself
     reachesEscaping           |-> \E x \in SmallCases : Out(x, Default).esc,
     reachesAccepted           |-> \E x \in SmallCases : ~Out(x, Default).resRej,
-    reachesRejected           |-> \E x \in SmallCases : Out(x, Default).resRej ]
+    reachesRejected           |-> \E x \in SmallCases : Out(x, Default).resRej,
+    reachesRootItself         |-> \E x \in SmallCases : Out(x, PreFix).rootWrite ]
 
 CompInit == c = [ph |-> 2, verdict |-> CompanionVerdict]
 CompNext == UNCHANGED c
